@@ -7,8 +7,8 @@ package main
 //   1311: (schema, DisallowUnknownField of p2j, of j2p, b, ec1, J, ec2, b')   judged: b' must decode (proved decoder) to a message
 //         equal to the one b decodes to (pval_eqv = the reference's message equality: field and map-entry order free)
 //   1312: (schema, options, J, ec2, b', ec3, J'')                             judged: J'' denotes what the canonical document J denotes
-// Schemas / values / reference encoder: protogen.go and the boundary mutation of c08.go.  Messages that trigger p2j's loop
-// overrun (C08 finding 805, can hang) are not generated here.  Error classes: 0 nil, 1 error, 2 panic, 4 no answer in 2 s.
+// Schemas / values / reference encoder: protogen.go and the boundary mutation of c08.go.  Every conversion runs under a 2 s
+// watchdog (a hang is error class 4 and ends the run).  Error classes: 0 nil, 1 error, 2 panic, 4 no answer in 2 s.
 
 import (
 	"context"
@@ -159,8 +159,7 @@ func genC13Proto(r *rng, n int) {
 			}
 			c08CapExtremes(r, v, &extremes)
 			if c08OverrunMsg(v, 0, unpacked, false) {
-				overrun++
-				continue
+				overrun++ // shapes that made p2j's list / map loops run past the enclosing message (C08 finding 805, fixed in /repo 3878b17): kept in
 			}
 			b, err := c.encodeRef(v, s.Root)
 			if err != nil {
@@ -175,5 +174,5 @@ func genC13Proto(r *rng, n int) {
 			made++
 		}
 	}
-	fmt.Fprintf(os.Stderr, "C13 proto: messages=%d compileErr=%d encodeErr=%d overrunSkipped=%d\n", made, compileErr, encodeErr, overrun)
+	fmt.Fprintf(os.Stderr, "C13 proto: messages=%d compileErr=%d encodeErr=%d overrunShapes=%d\n", made, compileErr, encodeErr, overrun)
 }
